@@ -313,6 +313,11 @@ class RendezvousConnector:
         err = msg["error"]
         orig = msg["orig"]
         self._B.rx_error(err, orig)
+        if isinstance(orig, dict) and orig.get("type") == "close":
+            # The server refused our "close" (e.g. the mailbox is crowded),
+            # so no "closed" response will ever follow. Treat the mailbox as
+            # closed instead of waiting forever.
+            self._M.rx_closed()
 
     def _response_handle_welcome(self, msg):
         self._B.rx_welcome(msg["welcome"])
